@@ -34,6 +34,20 @@ def variant(a, form):
         if a.ndim < 2:
             return None
         return np.asfortranarray(a)
+    if form == 'float32':
+        # single-precision storage of numbers that are exactly representable
+        # in it (e.g. posterior draws kept as float32): the same numbers
+        b = a.astype(np.float32)
+        if not np.array_equal(b.astype(float), a, equal_nan=True):
+            return None
+        return b
+    if form == 'series':
+        # pandas Series whose labels are not 0..n-1 (array-like arguments)
+        import pandas as pd
+        if a.ndim != 1 or a.size == 0:
+            return None
+        return pd.Series(a, index=['label %d' % (a.size - i)
+                                   for i in range(a.size)])
     if form in ('int64', 'int32', 'pyint'):
         if not integer_valued(a):
             return None
@@ -41,6 +55,11 @@ def variant(a, form):
             return a.astype(np.int64).tolist()
         return a.astype(np.int64 if form == 'int64' else np.int32)
     raise ValueError(form)
+
+
+def round32(a):
+    """the float64 array of the float32-rounded numbers"""
+    return np.asarray(a, dtype=float).astype(np.float32).astype(float)
 
 
 def pick(rng, applicable=None):
